@@ -280,6 +280,57 @@ pub fn driver(tier: Tier, path: &str) -> i32 {
         emit(&mut ctx, "std::time::Duration", "1.5s", &|e| e.search(std::time::Duration::from_millis(1500)));
         emit(&mut ctx, "std::net::Ipv4Addr", "127.0.0.1", &|e| e.search(std::net::Ipv4Addr::new(127, 0, 0, 1)));
     }
+    // the same borrowed document searched again after it was changed in place, and a new document in the same
+    // place: every search sees the value as it is now (sizes around and above a few dozen top-level entries)
+    {
+        let hexprs: Vec<(Expression<'static>, &'static str)> = ["length(@)", "@[-1]"].iter().map(|e| (jmespath::compile(e).unwrap(), *e)).collect();
+        for n in [3usize, 31, 32, 33, 40, 64, 100, 300] {
+            let mut arr = Value::Array((0..n).map(|i| json!(i)).collect());
+            let mut obj = Value::Object((0..n).map(|i| (format!("k{:03}", i), json!(i))).collect());
+            // one document at a time, so that consecutive searches see the same borrowed value before and after
+            // its update
+            for kind in ["array", "object"] {
+                for step in 0..4 {
+                    for (e, text) in &hexprs {
+                        let d: &Value = if kind == "array" { &arr } else { &obj };
+                        let got = match guarded(|| e.search(d)) {
+                            Ok(r) => render(r),
+                            Err(m) => format!("PANIC {}", m),
+                        };
+                        let want = match (*text, kind) {
+                            ("length(@)", _) => format!("ok {}", n + step),
+                            ("@[-1]", "array") => format!("ok {}", if step == 0 { (n - 1) as i64 } else { -(step as i64) }),
+                            _ => "ok null".to_string(),
+                        };
+                        if got != want {
+                            ctx.mismatches += 1;
+                            writeln!(ctx.out, "MISMATCH history|{} of {} after {} in-place updates|{} => {} (expected {})", kind, n, step, text, got, want).ok();
+                        }
+                        writeln!(ctx.out, "history|{} of {} after {} in-place updates|{} => {}", kind, n, step, text, got).ok();
+                        ctx.lines += 1;
+                    }
+                    if kind == "array" {
+                        arr.as_array_mut().unwrap().push(json!(-((step + 1) as i64)));
+                    } else {
+                        obj.as_object_mut().unwrap().insert(format!("z{}", step), json!(step));
+                    }
+                }
+            }
+            // a different document of the same size built in the same variable
+            let again = Value::Array((0..n).map(|i| json!(i * 2)).collect());
+            let got = match guarded(|| hexprs[1].0.search(&again)) {
+                Ok(r) => render(r),
+                Err(m) => format!("PANIC {}", m),
+            };
+            let want = format!("ok {}", (n - 1) * 2);
+            if got != want {
+                ctx.mismatches += 1;
+                writeln!(ctx.out, "MISMATCH history|fresh array of {}|@[-1] => {} (expected {})", n, got, want).ok();
+            }
+            writeln!(ctx.out, "history|fresh array of {}|@[-1] => {}", n, got).ok();
+            ctx.lines += 1;
+        }
+    }
     // compile sequences in one process: an expression, then the same text with white space that JMESPath does not
     // skip (and with ordinary white space) before / after it -- the outcome of each compile is the same in every
     // configuration, whatever was compiled before
@@ -396,7 +447,7 @@ pub fn run(tier: Tier, files: &[(String, String)]) -> i32 {
     for l in real.iter().step_by((real.len() / 10).max(1)) {
         st.sample(|| json!({"line": l}));
     }
-    rep.guard("all input types were exercised", ["i8", "u16", "i64", "usize", "f32", "f64", "()", "bool", "&str", "String", "Value", "&Value", "Rcvar", "&Rcvar", "Variable", "&Variable", "sentence", "generic"].iter().all(|k| st.outcomes.contains_key(*k)));
+    rep.guard("all input types were exercised", ["i8", "u16", "i64", "usize", "f32", "f64", "()", "bool", "&str", "String", "Value", "&Value", "Rcvar", "&Rcvar", "Variable", "&Variable", "sentence", "generic", "history"].iter().all(|k| st.outcomes.contains_key(*k)));
     rep.guard("four configurations compared", contents.len() == 4);
     rep.rule = "one driver built under {default, sync, specialized, sync+specialized}: every specially handled input type (Value, &Value, Rcvar, &Rcvar, Variable, &Variable, String, &str, i8..i64, u8..u64, isize, usize, f32, f64, (), bool) x its value alphabet (all 2^8 and 2^16 values of the narrow widths, per-bit boundaries of the wide ones, floats incl. subnormal / NaN / inf, the document pool) x 12 expressions, 35 kinds of inputs that only the generic Serialize path handles (128-bit integers at the 64-bit boundaries, alone and inside Vec / Option / struct / every enum variant kind, maps keyed by u8 / bool / char / tuple / i64, char, unit struct, Result, Duration, Ipv4Addr) x 6 expressions compared across configurations only, plus compile+search outcomes of every sentence over T32 up to the length bound on 4 documents: the four outputs are byte-identical and each line equals the reference (serde_json::to_value(input), then R-eval). states = cases per configuration; transitions = cases x configurations; non-trivial = non-null value Compile sequences (an expression, then the same text with 11 kinds of white space before / after it, then the expression again) are compared across configurations.".into();
     rep.bounds = json!({"configs": files.iter().map(|f| f.0.clone()).collect::<Vec<_>>(), "expressions": EXPRS});
